@@ -264,7 +264,16 @@ func (e *Env) NormalizeDesired(child map[string]any) map[string]any {
 
 // ObjID identifies an object in reports.
 func ObjID(o map[string]any) string {
-	return fmt.Sprintf("%v %s/%s", o["kind"], metaStr(o, "namespace"), metaStr(o, "name"))
+	av, _ := o["apiVersion"].(string)
+	return objIDOf(fmt.Sprint(o["kind"]), av, metaStr(o, "namespace"), metaStr(o, "name"))
+}
+
+// objIDOf: "<Kind>[.<group>] <namespace>/<name>" - the same Kind may exist in several API groups.
+func objIDOf(kind, apiVersion, ns, name string) string {
+	if i := strings.Index(apiVersion, "/"); i > 0 {
+		kind += "." + apiVersion[:i]
+	}
+	return fmt.Sprintf("%s %s/%s", kind, ns, name)
 }
 
 // FindIn returns the object with the same kind/namespace/name from a list.
